@@ -25,16 +25,16 @@ CLAIMED = {
          "small-scope bound; functor/optic/conversion outputs are deep-checked inside C10, C12-C14 by the same decoder", "DESIGN.md §4 C05"),
  'C06': ("bounded exhaustive enumeration of finite functions, pairs, (sizes,map) pairs and (surjection, map) pairs against functions-as-Vec",
          "All finite functions with domain and codomain up to 4 (thorough: domain 6, codomain 5), all ordered pairs of them, all raw tables, all block-wise injection arguments and all surjections crossed with all maps are pushed through the public API and compared with set-theoretic definitions; coequalizers are compared as partitions (too coarse and too fine both caught) and the universal map must exist exactly when the map is constant on fibres.",
-         "quick: domains/codomains <= 4; thorough: domains <= 6, codomains <= 5 (every parallel pair into 6 for coequalizers); numbering of coequalizer classes is free", "DESIGN.md §4 C06"),
+         "quick: domains/codomains <= 4; thorough: domains <= 6, codomains <= 5 (every parallel pair into 6 for coequalizers); left tables of length 16-25 made of consecutive runs in every order of the runs; numbering of coequalizer classes is free", "DESIGN.md §4 C06"),
  'C07': ("bounded exhaustive enumeration of primitive arguments against scalar loops (any conforming answer accepted where the contract is open)",
          "Each of the ~35 array primitives is run on every argument combination within the bounds (arrays of length <=4 over values <=3, index arrays, all range forms, all small edge lists) and compared with its scalar definition inside the documented precondition.",
-         "quick: array length <=4, values <=3, graphs <=4 nodes; thorough: length <=5 (<=8 for single-argument primitives), graphs <=5-6 nodes with <=5 edges; patterned arrays up to length 65; magnitudes around powers of two; element types usize, String, (), free terms; scalar loops are the specification", "DESIGN.md §4 C07"),
+         "quick: array length <=4, values <=3, graphs <=4 nodes; thorough: length <=5 (<=8 for single-argument primitives), graphs <=5-6 nodes with <=5 edges; patterned arrays up to length 65; index arrays of length 16-25 made of consecutive runs in every order of the runs; magnitudes around powers of two; element types usize, String, (), free terms; scalar loops are the specification", "DESIGN.md §4 C07"),
  'C08': ("bounded exhaustive enumeration of segmented arrays and operation arguments, list-of-lists decoding; exhaustive exploration of iterator call sequences",
          "Every segmented array with <=3-4 segments of size <=2 (of finite functions and of labels), every pair, every re-indexing and value map, and every raw (sizes, codomain, length) triple is run through the real API and decoded to lists of lists with the size invariant re-checked; the iterator state machines are explored over every call sequence of next/len/size_hint of length n+2 against a cursor model.",
          "quick: <=3 segments of size <=2 over codomains <=3 (4 segments over codomains <=2 for the one-argument operations), re-indexing maps of length <=4; thorough: <=5 segments of size <=3", "DESIGN.md §4 C08"),
  'C09': ("explicit-state exploration: exhaustive inputs (all pending-pair lists) + breadth-first search over unify/quotient/new_node histories with exact-state deduplication + live-object history replay",
          "Every lax (open) hypergraph of the universes with every list of up to 3 pending pairs is quotiented by the real code (on the open hypergraph and on the bare hypergraph), then again; success/failure, the returned map (as a partition), every rewritten reference, the cleared pending list and - on failure - every public field are compared with the reference. Interleavings of unify/quotient/new_node are explored breadth-first to depth 8-12 and replayed on one live object.",
-         "<=4-5 nodes, <=3 pending pairs (4 pairs on exactly 4 nodes; thorough 5 on 5); labels u8 and labels whose equality ignores a tag; numbering of merged nodes is free", "DESIGN.md §4 C09"),
+         "<=4-5 nodes, <=3 pending pairs (4 pairs on exactly 4 nodes; thorough 5 on 5); unify histories of 40 (60) calls from every base list of <=2 (3) pairs on 5 (6) nodes; labels u8 and labels whose equality ignores a tag; numbering of merged nodes is free", "DESIGN.md §4 C09"),
  'C10': ("bounded exhaustive enumeration; real to_strict/from_strict and lax operations vs strict operations, compared by isomorphism / exact data",
          "Round trips strict->lax->strict and lax->strict->lax are compared as exact data on every diagram; for every ordered pair of label-consistent lax diagrams with pending unifications compose (defined iff types match), lax_compose (iff arities match) and tensor are strictified by the real to_strict and compared up to isomorphism with the strict operation on strictified arguments; tensor_assign, append and coproduct_assign are compared field for field with the pure forms; identity, twist, singleton, spider and dagger likewise.",
          "<=2-3 nodes, <=1-2 hyperedges, <=1-2 pending pairs", "DESIGN.md §4 C10"),
